@@ -19,7 +19,7 @@ import QuicModel.Recovery.PersistentCongestion
   `Rtt.lossTimeThreshold/updateRtt/ptoPeriod`, `Pto`, `PersistentCongestion.Calculator`.
   Not modelled: ECN validation, MTU controller reactions, pacing, events, PTO jitter (0).
 
-  Ghost fields (not in the code): `highestSent` (= `TxPacketNumbers.next − 1`, what
+  Ghost fields (not in the code): `nextPn` (= `TxPacketNumbers.next`, what
   `validate_packet_ack` compares against), `clock` (ops carry non-decreasing timestamps),
   `underflow`, `panicked` (a `debug_assert!`/`expect` of the code would fire), `closed`.
 -/
@@ -61,7 +61,8 @@ structure Manager where
   handshakeConfirmed : Bool := false
   maxPtoBackoff : Nat := 4294967295
   -- ghost
-  highestSent : Option Nat := none
+  /-- `TxPacketNumbers.next`: the next packet number to be handed out -/
+  nextPn : Nat := 0
   clock : Nat := 1
   underflow : Bool := false
   panicked : Bool := false
@@ -124,7 +125,7 @@ def onPacketSent (m : Manager) (pn bytes : Nat) (cc ackEliciting : Bool) (now pa
   let m := addBif m pathId ccBytes
   let info : SentInfo := { pn := pn, congestionControlled := cc, sentBytes := ccBytes, timeSent := now,
                            ackEliciting := ackEliciting, pathId := pathId, mtuProbe := mtuProbe }
-  let m := { m with sent := m.sent ++ [info], highestSent := some pn }
+  let m := { m with sent := m.sent ++ [info], nextPn := pn + 1 }
   if ackEliciting then { m with timeOfLastAckEliciting := some now, ptoUpdatePending := true } else m
 
 /-- `Manager::on_transmit_burst_complete` -/
@@ -305,8 +306,7 @@ def Op.validCore (m : Manager) (op : Op) : Bool :=
   | .send pn bytes cc _ _ _ _ =>
     -- packet numbers are handed out in increasing order; `SentPacketInfo::new` asserts
     -- `sent_bytes > 0 ⇔ congestion_controlled` and `sent_bytes ≤ u16::MAX`
-    (match m.highestSent with | some h => decide (h < pn) | none => true) &&
-      decide (bytes ≤ 65535) && (if cc then decide (bytes > 0) else true)
+    decide (m.nextPn ≤ pn) && decide (bytes ≤ 65535) && (if cc then decide (bytes > 0) else true)
   | .ackFrame ranges _ _ _ => !ranges.isEmpty && ranges.all (fun r => decide (r.1 ≤ r.2))
   -- `debug_assert_ne!(self.space, ApplicationData)`; "this implementation assumes the connection has a
   -- single path when discarding packets" (`debug_assert_eq!(unacked_sent_info.path_id, path_id)`)
@@ -321,11 +321,9 @@ def Op.valid (m : Manager) (op : Op) : Bool :=
   !m.closed && (match op.now? with | some now => decide (m.clock ≤ now) | none => true) && op.validCore m
 
 /-- `TxPacketNumbers::on_packet_ack` (`validate_packet_ack`) accepts every range: nothing beyond the
-    highest packet number sent is acknowledged -/
+    highest packet number sent is acknowledged (`largest >= self.next` is a PROTOCOL_VIOLATION) -/
 def ackValid (m : Manager) (ranges : List (Nat × Nat)) : Bool :=
-  match m.highestSent with
-  | some h => ranges.all (fun r => decide (r.2 ≤ h))
-  | none => false
+  ranges.all (fun r => decide (r.2 < m.nextPn))
 
 /-- advance the ghost clock -/
 def tick (m : Manager) (op : Op) : Manager :=
@@ -366,10 +364,10 @@ def step (m : Manager) (op : Op) : Manager × Out × Status :=
 def run (m : Manager) : List Op → Manager × Out
   | [] => (m, {})
   | op :: ops =>
-    let (m1, o1, _) := step m op
-    let (m2, o2) := run m1 ops
-    (m2, { sent := o1.sent ++ o2.sent, acked := o1.acked ++ o2.acked, lost := o1.lost ++ o2.lost,
-           discarded := o1.discarded ++ o2.discarded })
+    let r1 := step m op
+    let r2 := run r1.1 ops
+    (r2.1, { sent := r1.2.1.sent ++ r2.2.sent, acked := r1.2.1.acked ++ r2.2.acked, lost := r1.2.1.lost ++ r2.2.lost,
+             discarded := r1.2.1.discarded ++ r2.2.discarded })
 
 /-- Σ sizes of the unresolved packets sent on `path` (non-congestion-controlled ones have size 0) -/
 def unresolvedBytes (path : Nat) : List SentInfo → Nat
